@@ -110,6 +110,116 @@ theorem session_confined (runs : List RunCfg) (r : RunCfg) (g : List Effect) (e 
   have := trace_ok r.flags r.ops _ (inv_init r.flags r.existing r.args r.stdinRecs) g hg e he
   exact ⟨this.1, this.2.1, this.2.2.1, this.2.2.2⟩
 
+/-! ### standard input under the name "-" is not a file; file decisions depend on (flags, answer of the open function) only -/
+
+/-- `getline < "-"`: effects and next state are the same under every flag setting (NoFileReads and OpenFile play no part) … -/
+theorem getline_dash_ignores_flags (f f' : Flags) (s : St) :
+    step f s (.getlineFile dash) = step f' s (.getlineFile dash) := by
+  simp only [step, inFile]
+  cases find dash s.streams <;> simp
+
+/-- … and it never opens anything and is never the NoFileReads error. -/
+theorem getline_dash_no_open (f : Flags) (s : St) :
+    ∀ e ∈ (step f s (.getlineFile dash)).1, (∀ n m via ok, e ≠ .open n m via ok) ∧ e ≠ .error .noFileReads := by
+  simp only [step, inFile]
+  cases h : find dash s.streams with
+  | none => simp
+  | some k => cases hk : k.isInput <;> simp [hk]
+
+/-- An operand "-" is served from standard input first, whatever the flags -/
+theorem dash_operand_reads_stdin (f : Flags) (s : St) (rest : List Bytes) :
+    ∃ es, (nextOperand f s (dash :: rest)).1 = .useStdin :: es := by
+  by_cases hz : s.stdinRecs = 0 <;> simp [nextOperand, dash, hz]
+
+theorem dash_operand_ignores_flags (f f' : Flags) (s : St) (rest : List Bytes) (h : s.stdinRecs ≠ 0) :
+    nextOperand f s (dash :: rest) = nextOperand f' s (dash :: rest) ∧
+    (nextOperand f s (dash :: rest)).1 = [.useStdin] ∧ (nextOperand f s (dash :: rest)).2.2 = .record := by
+  simp [nextOperand, dash, h]
+
+theorem default_input_ignores_flags (f f' : Flags) (s : St) : nextOperand f s [] = nextOperand f' s [] := by
+  simp [nextOperand]
+
+/-- The pattern-action loop (and un-redirected getline) over operands that name standard input only — "-" at any position, any
+number of times, "" entries, or no operand at all — behaves the same under every flag setting and with or without OpenFile, uses
+standard input only and does not end in an error. -/
+theorem stdin_operands_ignore_flags (f f' : Flags) (s : St) (h : onlyStdin s.args = true) :
+    step f s .mainLoop = step f' s .mainLoop ∧ step f s .getline = step f' s .getline ∧
+    (∀ e ∈ (step f s .mainLoop).1, e = .useStdin) ∧ (∀ e ∈ (step f s .getline).1, e = .useStdin) := by
+  obtain ⟨hm, hme⟩ := mainLoop_onlyStdin f f' (mainFuel s) s h
+  obtain ⟨heq, _, hne, hes⟩ := nextLine_onlyStdin f f' s h
+  refine ⟨hm, ?_, hme, ?_⟩
+  · simp only [step, ← heq]
+  · simp only [step]
+    rcases hnl : nextLine f s with ⟨es, s', r⟩
+    rw [hnl] at hne hes
+    cases r with
+    | record => simpa using hes
+    | eof => simpa using hes
+    | err e => exact absurd rfl (hne e)
+
+/-- Every decision about a file is a function of the flags and of what the open function answers, nothing else: for a name that
+is not an open stream, the effects of `getline < n` are determined by `readDecision f n` and the answer (here: whether the name
+is in the table of files the open function can deliver) … -/
+theorem read_open_hermetic (f : Flags) (s : St) (n : Bytes) (h : find n s.streams = none) :
+    (step f s (.getlineFile n)).1 =
+      match readDecision f n with
+      | .stdin => [.useStdin]
+      | .refuse e => [.error e]
+      | .stdout | .stderr => []
+      | .viaOpenFile m =>
+        if s.existing.contains n then [.open n m .configured true, .useStream n .inFile] else [.open n m .configured false, .soft] := by
+  simp only [step, inFile, h, readDecision]
+  by_cases h1 : n = dash
+  · simp [h1]
+  · by_cases h2 : f.noReads = true
+    · simp [h1, h2]
+    · by_cases h3 : n ∈ s.existing <;> simp [h1, h2, h3]
+
+/-- … of `print > n` / `print >> n` by `writeDecision f n mode` and the answer `ok` … -/
+theorem write_open_hermetic (f : Flags) (s : St) (n : Bytes) (ok : Bool) (h : find n s.streams = none) :
+    (step f s (.printGt n ok)).1 =
+      match writeDecision f n .wrTrunc with
+      | .stdout => [.useStdout]
+      | .stderr => [.useStderr]
+      | .stdin => []
+      | .refuse e => [.error e]
+      | .viaOpenFile m =>
+        if ok then [.open n m .configured true, .useStream n .outFile] else [.open n m .configured false, .error .redirect] := by
+  simp only [step, outFile, h, writeDecision]
+  by_cases h1 : n = dash
+  · simp [h1]
+  · by_cases h2 : f.noWrites = true
+    · simp [h1, h2]
+    · by_cases h3 : n = devStderr
+      · subst h3; simp [h2, show devStderr ≠ dash by decide]
+      · by_cases h4 : n = devStdout
+        · subst h4; simp [h2, show devStdout ≠ dash by decide, show devStdout ≠ devStderr by decide]
+        · cases ok <;> simp [h1, h2, h3, h4]
+
+/-- … and two states that give the same answer for `n` give the same effects: nothing else of the state (no other file, no host
+file system) is consulted. -/
+theorem open_effects_depend_on_answer_only (f : Flags) (s s' : St) (n : Bytes) (ok : Bool)
+    (h : find n s.streams = none) (h' : find n s'.streams = none) (ha : s.existing.contains n = s'.existing.contains n) :
+    (step f s (.getlineFile n)).1 = (step f s' (.getlineFile n)).1 ∧
+    (step f s (.printGt n ok)).1 = (step f s' (.printGt n ok)).1 ∧
+    (step f s (.printApp n ok)).1 = (step f s' (.printApp n ok)).1 := by
+  refine ⟨?_, ?_, ?_⟩
+  · rw [read_open_hermetic f s n h, read_open_hermetic f s' n h', ha]
+  · simp only [step, outFile, h, h']
+    repeat (first | split | rfl)
+  · simp only [step, outFile, h, h']
+    repeat (first | split | rfl)
+
+/-- … and of a file operand of the pattern-action loop by `NoFileReads` and the answer. -/
+theorem operand_open_hermetic (f : Flags) (s : St) (a : Bytes) (rest : List Bytes) (h0 : a ≠ []) (h1 : a ≠ dash) :
+    ((nextOperand f s (a :: rest)).1, (nextOperand f s (a :: rest)).2.2) =
+      if f.noReads then ([], .err .noFileReads)
+      else if s.existing.contains a then ([.open a .rd .configured true], .record)
+      else ([.open a .rd .configured false], .err .openFailed) := by
+  by_cases h2 : f.noReads = true
+  · simp [nextOperand, h0, h1, h2]
+  · by_cases h3 : a ∈ s.existing <;> simp [nextOperand, h0, h1, h2, h3]
+
 /-! ### the regenerated inventory of OS-reaching call sites of package interp -/
 
 theorem gen_matches : Generated.C12IoSites.sites = expectedSites := by decide
@@ -137,5 +247,28 @@ example : firstRegular g121State.args = true ∧ g121State.cur = 0 := by decide
 example : (step g121Flags g121State .mainLoop).1 = [.error .noFileReads] := by decide
 example : (step g121Flags g121State .getline).1 = [.error .noFileReads] := by decide
 example : (Generated.C12IoSites.sites.length, Generated.C12IoSites.imports.length) = (14, 26) := by decide
+
+/-! non-vacuity of the stdin / hermetic-open theorems -/
+def exReadsOnly : Flags := { noExec := false, noWrites := false, noReads := true, hook := true }
+def exNoFlags : Flags := { noExec := false, noWrites := false, noReads := false, hook := false }
+-- "", "-", "-" : only standard input is named; NoFileReads + OpenFile vs. nothing set: same run, no error, stdin only
+example : onlyStdin [[], dash, dash] = true := by decide
+example : step exReadsOnly (St.init [] [[], dash, dash] 2) .mainLoop = step exNoFlags (St.init [] [[], dash, dash] 2) .mainLoop :=
+  (stdin_operands_ignore_flags _ _ _ (by decide)).1
+example : (step exReadsOnly (St.init [] [[], dash, dash] 2) .mainLoop).1 = [.useStdin, .useStdin] := by decide
+-- … while a file operand after the "-" is refused (so the hypothesis of stdin_operands_ignore_flags is needed)
+example : (step exReadsOnly (St.init [[105]] [dash, [105]] 1) .mainLoop).1 = [.useStdin, .error .noFileReads] := by decide
+example : (step exNoFlags (St.init [[105]] [dash, [105]] 1) .mainLoop).1 = [.useStdin, .open [105] .rd .configured true] := by decide
+example : step exReadsOnly (St.init [] [] 2) (.getlineFile dash) = step exNoFlags (St.init [] [] 2) (.getlineFile dash) :=
+  getline_dash_ignores_flags _ _ _
+example : (readDecision exReadsOnly dash, readDecision exReadsOnly [105], readDecision exNoFlags [105]) =
+    (.stdin, .refuse .noFileReads, .viaOpenFile .rd) := by decide
+example : (writeDecision exFlags dash .wrTrunc, writeDecision exFlags [111] .wrTrunc, writeDecision exNoFlags [111] .wrAppend,
+    writeDecision exNoFlags devStderr .wrTrunc) = (.stdout, .refuse .noFileWrites, .viaOpenFile .wrAppend, .stderr) := by decide
+-- the same name, two states that differ in everything but the answer for it: same effects
+example : (step exNoFlags (St.init [[105]] [] 0) (.getlineFile [105])).1 = (step exNoFlags (St.init [[120], [105]] [[120]] 3) (.getlineFile [105])).1 :=
+  (open_effects_depend_on_answer_only _ _ _ _ true rfl rfl (by decide)).1
+-- … and a different answer gives different effects (the answer does matter)
+example : (step exNoFlags (St.init [[105]] [] 0) (.getlineFile [105])).1 ≠ (step exNoFlags (St.init [] [] 0) (.getlineFile [105])).1 := by decide
 
 end GoawkModel.C12.Props
